@@ -1,8 +1,8 @@
-\* (M) ideal keys: Fresh holds over all histories of 5 steps on 2 paths
+\* (M) ideal keys: Fresh holds over all histories of 4 steps on 2 paths
 CONSTANTS Paths = {1, 2}
           NVersions = 3
           Modes = {0, 1, 2}
-          MaxActions = 5
+          MaxActions = 4
           KeyModel = 0
           VStep = {1, 2}
           WithX = TRUE
